@@ -49,6 +49,10 @@ PRODS = [(f"attr.{n}", "({0})." + n, 1) for n in POOL] + [
     # string constants with runs of blanks / a real tab character (in keys, lookups, comparisons)
     ("str.2sp", "'a  b'", 0), ("str.tab", "'x\ty\t\tz'", 0), ("dict.2sp", "{{'jet  pt': ({0})}}", 1), ("dictkey.2sp", "{{'a  b': ({0})}}['a  b']", 1),
     ("eq.2sp", "({0}) == 'run  2'", 1), ("str.lead", "'  x '", 0),
+    # dictionary literals that mix keys that could be field names with keys that could not; either kind looked up
+    ("dictkey.mixed", "{{'jet pt': ({0}), 'n': ({1})}}['jet pt']", 2), ("dictkey.mixed2", "{{'n': ({0}), 'a-b': ({1})}}['a-b']", 2),
+    ("dictkey.mixed3", "{{'1x': ({0}), 'n': ({1})}}['n']", 2), ("dictattr.mixed", "{{'class': ({0}), 'n': ({1})}}.n", 2),
+    ("dictkey.mixed4", "{{'': ({0}), 'n': ({1})}}['']", 2),
 ]
 LEGAL_CONST = (str, int, float, bool, complex, bytes)
 
